@@ -1,6 +1,7 @@
 import Tmcg.Driver
 import Tmcg.DriverDkg
 import Tmcg.Model.Cgjkr
+import Tmcg.Model.CgjkrSign
 /-
   Line-protocol handlers of area "cgjkr": the adaptively secure threshold cryptosystem classes of
   src/CanettiGennaroJareckiKrawczykRabinASTC.cc (RVSS, ZVSS, DKG with share refresh, threshold DSS)
@@ -10,6 +11,9 @@ import Tmcg.Model.Cgjkr
         OUT = ret|[QUAL]|x_i|xprime_i|y|[QUAL of x_rvss]|[C_00..C_(n-1)t], `-` (died), `*` (masked: drops broadcasts)
     cgjkr.refresh n t p q g h [SUB] (x_i xprime_i [C..] [QUAL] STRONG WEAK DEV){n} => OUT{n}
         OUT = ret|[QUAL]|x_i|xprime_i|[C_00..], `.` (not in SUB), `-` (died), `*` (masked)
+    cgjkr.sign n t p q g h MSG [SUB] (x_i xprime_i [C..] [QUAL of x_rvss] STRONG DEV){n} => OUT{n}
+        OUT = ret|r|s|nops|digest|[checkpoints] (digest of everything the party hands to the network, see
+        Tmcg/Model/CgjkrSign.lean), `.` (not in SUB), `-` (died)
 -/
 namespace Tmcg.DriverCgjkr
 open Tmcg Tmcg.Driver Tmcg.DriverDkg
@@ -86,6 +90,60 @@ def hRefresh : Handler
             | none => "?")))
   | _ => none
 
-def handlers : List (String × Handler) := [("cgjkr.gen", hGen), ("cgjkr.refresh", hRefresh)]
+/-- split a script into the items the round glue applies and the `LA,depth,k,d` items the model of `Sign`
+    applies itself; `ZC,a,b` only concerns the coins (they arrive as inputs) -/
+def pSignDev (s : String) : Option (Dkg.Dev × List (Nat × Nat × Int)) :=
+  if s = "-" then some ({}, []) else
+    (s.splitOn ";").foldlM (fun (acc : Dkg.Dev × List (Nat × Nat × Int)) item =>
+      match item.splitOn "," with
+      | ["LA", l, k, d] => do
+        let l ← pNat l; let k ← pNat k; let d ← pInt d
+        some (acc.1, acc.2 ++ [(l, k, d)])
+      | ["ZC", _, _] => some acc
+      | _ => do
+        let d ← pDevItem acc.1 item
+        some (d, acc.2)) ({}, [])
+
+def pSignParties (n t : Nat) : Nat → List String → Option (List CgjkrSign.SignIn)
+  | 0, [] => some []
+  | 0, _ => none
+  | f + 1, x :: xp :: c :: ql :: s :: d :: rest => do
+    let x ← pInt x; let xp ← pInt xp; let c ← pIntList c; let ql ← pNatList ql
+    let s ← pIntList s; let (dv, la) ← pSignDev d
+    let r ← pSignParties n t f rest
+    some (⟨x, xp, unflat t n c, ql, s, dv, la⟩ :: r)
+  | _, _ => none
+
+def showSignC (P : Dkg.Party CgjkrSign.SSt) : String :=
+  match P.err with
+  | some e => s!"exc:{e}"
+  | none =>
+    if P.fs.dead then "-"
+    else
+      let st := P.st
+      match P.status with
+      | .run => "?"
+      | .ret b => s!"{showB b}|{st.r}|{st.s}|{st.nops}|{st.dg}|{showList st.cps}"
+
+def hSign : Handler
+  | n :: t :: p :: q :: g :: h :: msg :: sub :: rest => do
+    let n ← pNat n; let t ← pNat t
+    let p ← pInt p; let q ← pInt q; let g ← pInt g; let h ← pInt h; let msg ← pInt msg
+    let sub ← pNatList sub
+    let all ← pSignParties n t n rest
+    let ins := sub.map (fun i => all.getD i ⟨0, 0, [], [], [], {}, []⟩)
+    some (match Dkg.mkGrp p q g h with
+      | .error e => toString e
+      | .ok G =>
+        let ps := CgjkrSign.runSign G t msg sub ins
+        " ".intercalate ((List.range n).map (fun i =>
+          match sub.idxOf? i with
+          | none => "."
+          | some k => match ps[k]? with
+            | some P => showSignC P
+            | none => "?")))
+  | _ => none
+
+def handlers : List (String × Handler) := [("cgjkr.gen", hGen), ("cgjkr.refresh", hRefresh), ("cgjkr.sign", hSign)]
 
 end Tmcg.DriverCgjkr
